@@ -47,7 +47,7 @@ fn in_domain(s: &str) -> bool {
 }
 
 fn name_strategy() -> BoxedStrategy<String> {
-    prop_oneof![
+    crate::one_of![ 
         4 => (0u32..40).prop_map(|n| n.to_string()),
         2 => (0u32..(1 << 30)).prop_map(|n| n.to_string()),
         3 => (0u32..12).prop_map(|n| format!("f{}", n)),
@@ -69,7 +69,7 @@ fn name_strategy() -> BoxedStrategy<String> {
 }
 
 fn op_strategy() -> BoxedStrategy<SlotOp> {
-    prop_oneof![
+    crate::one_of![ 
         4 => Just(SlotOp::Fresh),
         2 => (0u32..64).prop_map(SlotOp::Numeric),
         1 => (0u32..(1 << 30)).prop_map(SlotOp::Numeric),
